@@ -10,7 +10,12 @@ def elemParams : String → Option (Nat × Nat)
   | _ => none
 
 def prefixWidth : String → Option Nat
-  | "p16" => some 2 | "p32" => some 4 | "p64" => some 8 | "p128" => some 16 | _ => none
+  | "p16" => some 2 | "p32" => some 4 | "p64" => some 8 | "p128" => some 16
+  | "p8" => some 1 | "r16" => some 2 | _ => none
+
+/-- alignment of the prefix type itself: the Pod integers and `u8` are align-1, the primitive `u16` is not -/
+def prefixAlign : String → Nat
+  | "r16" => 2 | _ => 1
 
 def params (t l : String) : Option Params := do
   let (s, a) ← elemParams t
@@ -33,6 +38,7 @@ structure Hist where
   P : Params
   a : Nat
   b : Bytes
+  aL : Nat := 1
 
 abbrev St := Option Hist
 
@@ -55,22 +61,22 @@ def withBuf (b : Bytes) (s : String) : String := s!"{s} buf={Hex.ofBytes b}"
 def op (h : Hist) (toks : List String) : Option (Hist × String) :=
   match toks with
   | ["init"] =>
-    let (b', r) := init h.P h.a h.b
+    let (b', r) := guardLB h.aL h.b (init h.P h.a h.b)
     let s := match r with
       | .ok v => s!"ok len={v.len} cap={v.cap}"
       | .err e => errLine e
       | .panic => "panic"
     some ({ h with b := b' }, withBuf b' s)
   | ["reopen"] =>
-    some (h, withBuf h.b (viewLine h.P h.b (unpackMut h.P h.a h.b)))
+    some (h, withBuf h.b (viewLine h.P h.b (guardL h.aL (unpackMut h.P h.a h.b))))
   | ["push", x] => do
     let x ← Hex.toBytes x
-    let (b', r) := push h.P h.a h.b x
+    let (b', r) := guardLB h.aL h.b (push h.P h.a h.b x)
     let s := match r with | .ok _ => "ok ()" | .err e => errLine e | .panic => "panic"
     some ({ h with b := b' }, withBuf b' s)
   | ["remove", i] => do
     let i ← i.toNat?
-    let (b', r) := remove h.P h.a h.b i
+    let (b', r) := guardLB h.aL h.b (remove h.P h.a h.b i)
     let s := match r with
       | .ok x => if h.P.sizeT = 0 then "ok zst" else s!"ok {Hex.ofBytes x}"
       | .err e => errLine e | .panic => "panic"
@@ -78,20 +84,20 @@ def op (h : Hist) (toks : List String) : Option (Hist × String) :=
   | ["set", i, x] => do
     let i ← i.toNat?
     let x ← Hex.toBytes x
-    let (b', r) := setElem h.P h.a h.b i x
+    let (b', r) := guardLB h.aL h.b (setElem h.P h.a h.b i x)
     let s := match r with | .ok _ => "ok ()" | .err e => errLine e | .panic => "panic"
     some ({ h with b := b' }, withBuf b' s)
   | ["sort", m] =>
-    let (b', r) := sortBy h.P h.a h.b (cmpLe m)
+    let (b', r) := guardLB h.aL h.b (sortBy h.P h.a h.b (cmpLe m))
     let s := match r with | .ok _ => "ok ()" | .err e => errLine e | .panic => "panic"
     some ({ h with b := b' }, withBuf b' s)
   | ["used"] =>
-    let s := match unpackMut h.P h.a h.b with
+    let s := match guardL h.aL (unpackMut h.P h.a h.b) with
       | .ok v => (match bytesUsed h.P v with | .ok n => s!"ok {n}" | .err e => errLine e | .panic => "panic")
       | .err e => errLine e | .panic => "panic"
     some (h, withBuf h.b s)
   | ["alloc"] =>
-    let s := match unpackMut h.P h.a h.b with
+    let s := match guardL h.aL (unpackMut h.P h.a h.b) with
       | .ok v => (match bytesAllocated h.P v with | .ok n => s!"ok {n}" | .err e => errLine e | .panic => "panic")
       | .err e => errLine e | .panic => "panic"
     some (h, withBuf h.b s)
@@ -103,17 +109,17 @@ def handle (st : St) (toks : List String) : Option (St × String) :=
     let P ← params t l
     let a ← off.toNat?
     let b ← Hex.toBytes h
-    pure (st, viewLine P b (unpack P a b))
+    pure (st, viewLine P b (guardL (prefixAlign l) (unpack P a b)))
   | ["lvsize", t, l, n] => do
     let P ← params t l
     let n ← n.toNat?
-    let s := match sizeOf P n with | .ok k => s!"ok {k}" | .err e => errLine e | .panic => "panic"
+    let s := match guardL (prefixAlign l) (sizeOf P n) with | .ok k => s!"ok {k}" | .err e => errLine e | .panic => "panic"
     pure (st, s)
   | ["B", _, "lvh", t, l, off, h] => do
     let P ← params t l
     let a ← off.toNat?
     let b ← Hex.toBytes h
-    pure (some ⟨P, a, b⟩, "begin")
+    pure (some ⟨P, a, b, prefixAlign l⟩, "begin")
   | "O" :: rest =>
     match st with
     | some h => (op h rest).map (fun (h', s) => (some h', s))
